@@ -63,6 +63,8 @@ func runC03(c *Ctx) {
 	r.Rule("R3-field-agreement", "hash/check/set methods read the nonce field they are named after", 6)
 	r.Rule("R4-start-side", "login URL carries encodeState(csrf.HashOAuthState()) and HashOIDCNonce() of the object whose cookie was set before the redirect; NewCSRF uses two Nonce calls", 6)
 	r.Rule("R7-sweeps-spare-csrf", "the session-cookie sweeps (Clear, stale-part sweep on Save) select cookies by the name(_N)? template that rejects <name>_<hash>_csrf (shared with C11.R3/R4, C10.R4)", 10)
+	r.Rule("R8-own-verifier-redeemed", "every Redeem implementation sends the verifier of this login's CSRF cookie as code_verifier, so a callback with its own state and cookie can complete under PKCE (shared with C05.R9)", 4)
+	r.Rule("R9-login-params-fresh", "LoginURLParams returns a map made for this request, never the provider's shared default map", 1)
 	r.Rule("R6-clears-own-cookie-only", "csrf.ClearCookie deletes exactly its own cookie", 2)
 	r.Rule("R5-name-agreement", "cookieName and ExtractStateSubstring cut the hashed state at the same constant; encodeState/decodeState agree on field order", 4)
 
@@ -76,6 +78,8 @@ func runC03(c *Ctx) {
 	// ^QuoteMeta(name)(_\d+)?$ template, whose probe set includes NAME_0_csrf and NAME_csrf as must-reject
 	runC11R3R4(c, "R7-sweeps-spare-csrf", "R7-sweeps-spare-csrf")
 	runC10R4(c, "R7-sweeps-spare-csrf")
+	runC05R9(c, "R8-own-verifier-redeemed")
+	runLoginParamsFresh(c, "R9-login-params-fresh")
 
 	runC03R2Rule(c, "R2-csrf-load")
 
@@ -515,4 +519,31 @@ func runC03R6(c *Ctx) {
 			c.ok(rule, "count|"+fnKey(clear), p.Exit, "exactly one deletion")
 		}
 	})
+}
+
+// runLoginParamsFresh: the parameter set a login start adds its nonce / PKCE challenge to is made for that request.
+// LoginURLParams returns, on every path, a map created in that invocation (never the provider's long-lived
+// default map), so what one login adds cannot leak into — and break — the next login's authorization request.
+func runLoginParamsFresh(c *Ctx, rule string) {
+	fn := c.Fn(rule, "(*providers.ProviderData).LoginURLParams")
+	if fn == nil {
+		return
+	}
+	n := 0
+	for _, b := range fn.Blocks {
+		ret, ok := b.Instrs[len(b.Instrs)-1].(*ssa.Return)
+		if !ok || len(ret.Results) == 0 {
+			continue
+		}
+		n++
+		key := "fresh-map|" + fnKey(fn)
+		if locallyMade(ret.Results[0], 0) {
+			c.ok(rule, key, ret, "returns a map made in this invocation")
+		} else {
+			c.R.Bad(rule, key, c.pos(ret), "LoginURLParams hands out a map that is not made in this invocation ("+mapText(ret.Results[0])+"): callers add the login's nonce and code challenge to it, so later logins send an earlier login's values and their own callbacks fail", nil, nil)
+		}
+	}
+	if n == 0 {
+		c.R.Unknown(rule, "fresh-map|none", c.P.Pos(fn.Pos()), "LoginURLParams has no return")
+	}
 }
